@@ -47,7 +47,7 @@ OVERLAY_LEGACY = {"server/zz_verif_c09_push_test.go": "server/zz_verif_c09_push_
 
 def run(ctx):
     ctx.lean_check(MODULES, THEOREMS)
-    env = {"VERIF_N": ctx.scale(1200, 30000), "VERIF_NPUSH": ctx.scale(400, 8000)}
+    env = {"VERIF_N": ctx.scale(4000, 60000), "VERIF_NPUSH": ctx.scale(1000, 10000)}
     replay_kind = None
     if ctx.replay:
         path = ctx.replay_line_file()
@@ -63,7 +63,7 @@ def run(ctx):
         ctx.classify(ctx.l2(outdir))
     if replay_kind in (None, "legacy"):
         env2 = dict(env)
-        env2["VERIF_N"] = ctx.scale(250, 5000)
+        env2["VERIF_N"] = ctx.scale(600, 6000)
         rc, out, outdir = ctx.go_test("./server/", OVERLAY_LEGACY, "^TestVerifC09Legacy$", env=env2, timeout=1800)
         if rc != 0:
             ctx.violation("driver-failed", "", out[-1500:], no_input=True)
